@@ -421,7 +421,7 @@ func (pc *PathCtx) flush(in *Interp) {
 			s.raw("(pop 1)")
 			s.scope = s.scope[:0]
 			if r == "unknown" {
-				pc.events = append(pc.events, Event{Kind: "inconclusive", Label: "divergence", Msg: "solver unknown while checking the alternatives of a path: " + lastSolverError})
+				pc.flushOneByOne(in)
 			}
 			return
 		}
@@ -462,6 +462,71 @@ func (pc *PathCtx) flush(in *Interp) {
 			pc.events = append(pc.events, Event{Kind: "inconclusive", Label: "divergence", Msg: "engine: divergence model satisfies every literal"})
 			return
 		}
+	}
+}
+
+// flushOneByOne is the fallback when the combined divergence query is too hard:
+// every open decision is checked with its own (smaller) query.
+func (pc *PathCtx) flushOneByOne(in *Interp) {
+	ts := in.ts
+	s := pc.solver
+	for k := range pc.lits {
+		l := &pc.lits[k]
+		if l.kind == 0 || l.done {
+			continue
+		}
+		for {
+			var alt *Term
+			if l.kind == 1 {
+				alt = ts.BNot(l.t)
+			} else {
+				alt = ts.Bool(true)
+				for _, v := range l.excl {
+					alt = ts.BAnd(alt, ts.BNot(ts.Cmp(OpEq, l.ct, ts.Const(v, l.ct.w))))
+				}
+			}
+			var names []string
+			for j := 0; j < k; j++ {
+				names = append(names, pc.em.Name(pc.lits[j].t))
+			}
+			names = append(names, pc.em.Name(alt))
+			s.raw("(push 1)")
+			s.scope = s.scope[:0]
+			for _, n := range names {
+				if n == "true" {
+					continue
+				}
+				a := "(assert " + n + ")"
+				s.scope = append(s.scope, a)
+				s.raw(a)
+			}
+			r := s.CheckSat("")
+			if r != "sat" {
+				s.raw("(pop 1)")
+				s.scope = s.scope[:0]
+				if r == "unknown" {
+					pc.events = append(pc.events, Event{Kind: "inconclusive", Label: "divergence", Msg: "solver unknown on the alternative of one decision (after the combined query was unknown): " + lastSolverError})
+				}
+				break
+			}
+			pc.fetchModelInto(in, &pc.altModel)
+			s.raw("(pop 1)")
+			s.scope = s.scope[:0]
+			var v uint64
+			if l.kind == 1 {
+				v = 1 - pc.trace[l.tpos]
+			} else {
+				v = ts.Eval(l.ct, pc.altModel, map[*Term]uint64{}, ufEval)
+				l.excl = append(l.excl, v)
+			}
+			alt2 := append(append([]uint64(nil), pc.trace[:l.tpos]...), v)
+			pc.exp.push(alt2, pc.altModel)
+			pc.altModel = nil
+			if l.kind == 1 || len(l.excl) > pc.exp.cfg.MaxConcretize {
+				break
+			}
+		}
+		l.done = true
 	}
 }
 
